@@ -28,13 +28,22 @@ def gen(rng, tier):
         gs.append(G.random_cfg(rng, rng.randint(1, 4), rng.randint(1, 2), rng.randint(1, 7), maxlen=rng.choice([2, 3, 4]), varnames=rng.choice([None, None, ['S', 'A', 'AB', 'B', 'BB']])))
     for _ in range(300 if quick else 4000):
         gs.append(G.random_cnf(rng, rng.randint(2, 5), 2, rng.randint(2, 9), names=rng.choice([None, None, ['S', 'A', 'AB', 'B', 'BB'], ['S', 'X', 'XY', 'Y', 'YX']])))
-    return [{'G': g, 'ws': ws} for g in gs]
+    cases = [{'G': g, 'ws': ws} for g in gs]
+    # call sequences in one process: a grammar is queried, then a sibling with the SAME rules and another start variable
+    # (a new object), then the first object again after its start variable was changed in place
+    for _ in range(120 if quick else 2000):
+        g = G.random_cfg(rng, rng.randint(2, 3), 2, rng.randint(2, 6), maxlen=3) if rng.random() < 0.6 else G.random_cnf(rng, rng.randint(2, 4), 2, rng.randint(2, 7))
+        others = [v for v in g['V'] if v != g['S']]
+        if not others:
+            continue
+        g2 = dict(g, S=rng.choice(others))
+        cases.append({'G': g, 'ws': ws, 'then': {'G': g2, 'ws': ws}, 'inplace': rng.random() < 0.5})
+    return cases
 
 
-def observe(c):
+def _observe1(c, Gm):
     from gambatools.cfg_algorithms import cfg_accepts_word, cfg_cyk_matrix
     from implutil import safe, ok
-    Gm = conv.cfg_obj(c['G'])
     r = safe(Gm.is_chomsky)
     chom = bool(r[1]) if ok(r) else None
     obs = []
@@ -51,6 +60,19 @@ def observe(c):
     return {'chom': chom, 'obs': obs}
 
 
+def observe(c):
+    Gm = conv.cfg_obj(c['G'])
+    o = _observe1(c, Gm)
+    if c.get('then'):
+        if c.get('inplace'):
+            from gambatools.cfg import Variable
+            Gm.S = Variable(c['then']['G']['S'])
+            o['then'] = _observe1(c['then'], Gm)
+        else:
+            o['then'] = _observe1(c['then'], conv.cfg_obj(c['then']['G']))
+    return o
+
+
 def _nm(g):
     nm = L.Names()
     for v in g['V']:
@@ -63,6 +85,12 @@ def _nm(g):
 
 
 def encode(c, o):
+    if c.get('then'):
+        return 'worst_code [%s; %s]' % (_encode1(c, o), _encode1(c['then'], o['then']))
+    return _encode1(c, o)
+
+
+def _encode1(c, o):
     g = c['G']
     nm = _nm(g)
     lit = L.cfg(g, nm)
@@ -81,7 +109,7 @@ def explain(c):
 
 
 def key(c):
-    return conv.cfg_text(c['G'])
+    return conv.cfg_text(c['G']) + ('\n=then=>\n' + key(c['then']) if c.get('then') else '')
 
 
 def nontrivial(c, o):
